@@ -481,3 +481,104 @@ def gen_field_lemmas(meta):
             vals = dict(zip(leaves, G.const(f"c_{cn}()")))
             L("rf_" + fn_, "", [], [f"{m('rf_' + fn_, p, [])} == {vals[p]}" for p in outs], f"RealField::{fn_}() is the constant {cn} with zero derivative parts")
     return out
+
+
+# ----------------------------------------------------------------------------------------------
+# plain-float instance of the interface (unit F64): forwards to the standard library functions (C06, C09, C15)
+# ----------------------------------------------------------------------------------------------
+def gen_float_lemmas(meta):
+    fns = fn_by_mname(meta)
+    out = []
+
+    def have(n):
+        return f"m_F64_{n}" in fns
+
+    def L(name, params, req, ens, prop, what):
+        out.append(Lemma(f"lem_F64_{name}", params, req, ens, prop, what))
+
+    rname = {"exp_m1": "expm1", "ln_1p": "ln1p"}
+    for g in ["recip", "sqrt", "cbrt", "exp", "exp2", "exp_m1", "ln", "log2", "log10", "ln_1p", "sin", "cos", "tan", "asin", "acos", "atan",
+              "sinh", "cosh", "tanh", "asinh", "acosh", "atanh"]:
+        if have(g):
+            L(g, "x: real", [], [f"m_F64_{g}_ret(x) == {rname.get(g, g)}_r(x)"], ["C06"] + (["C09"] if g in ("recip", "sqrt", "cbrt") else []),
+              f"plain-float {g} returns what the standard library {g} returns")
+    if have("re"):
+        L("re", "x: real", [], ["m_F64_re_ret(x) == x"], ["C06"], "re of a float is the float")
+    if have("mul_add"):
+        L("mul_add", "x: real, a: real, b: real", [], ["m_F64_mul_add_ret(x, a, b) == (x * a) + b"], ["C06", "C08"], "float mul_add")
+    if have("powi"):
+        L("powi", "x: real, n: int", [], ["m_F64_powi_ret(x, n) == powi_r(x, n)"], ["C06", "C09"], "float powi forwards to std powi")
+    for g in ["powf", "powd"]:
+        if have(g):
+            L(g, "x: real, n: real", [], [f"m_F64_{g}_ret(x, n) == powf_r(x, n)"], ["C06", "C09"], f"float {g} forwards to std powf")
+    if have("log"):
+        L("log", "x: real, b: real", [], ["m_F64_log_ret(x, b) == log_r(x, b)"], ["C06"], "float log")
+    if have("atan2"):
+        L("atan2", "x: real, o: real", [], ["m_F64_atan2_ret(x, o) == atan2_r(x, o)"], ["C06"], "float atan2")
+    if have("sin_cos"):
+        L("sin_cos", "x: real", [], ["m_F64_sin_cos_0(x) == sin_r(x)", "m_F64_sin_cos_1(x) == cos_r(x)"], ["C06"], "float sin_cos")
+    big = ["abs_r(x) >= eps_r()", "eps_r() > 0real", "x * recip_r(x) == 1real"]
+    small = ["abs_r(x) < eps_r()"]
+    if have("sph_j0"):
+        L("sph_j0_closed", "x: real", big, ["m_F64_sph_j0_ret(x) * x == sin_r(x)"], ["C15"], "float sph_j0 = sin x / x for |x| >= eps, both signs")
+        L("sph_j0_series", "x: real", small, ["m_F64_sph_j0_ret(x) == 1real - x * x / 6real"], ["C15", "C10"], "float sph_j0 series below eps (value 1 at 0)")
+    if have("sph_j1"):
+        L("sph_j1_closed", "x: real", big, ["m_F64_sph_j1_ret(x) * x * x == sin_r(x) - x * cos_r(x)"], ["C15"], "float sph_j1 closed form for |x| >= eps, both signs")
+        L("sph_j1_series", "x: real", small, ["m_F64_sph_j1_ret(x) == x / 3real"], ["C15", "C10"], "float sph_j1 series below eps")
+    if have("sph_j2"):
+        L("sph_j2_closed", "x: real", big, ["m_F64_sph_j2_ret(x) * x * x * x == (3real - x * x) * sin_r(x) - 3real * x * cos_r(x)"], ["C15"], "float sph_j2 closed form for |x| >= eps, both signs")
+        L("sph_j2_series", "x: real", small, ["m_F64_sph_j2_ret(x) == x * x / 15real"], ["C15", "C10"], "float sph_j2 series below eps")
+    return out
+
+
+# ----------------------------------------------------------------------------------------------
+# C06: the real part of every result (and every predicate) depends on the real parts of the operands only
+# ----------------------------------------------------------------------------------------------
+def gen_transparency_lemmas(meta):
+    G = Gen(meta)
+    ty = G.ty
+    out = []
+    nonre = [l for l in G.leaves if l != "re"]
+    for f in meta["functions"]:
+        if f.get("variant") or f.get("manual") or not f.get("params") and not f.get("outs"):
+            continue
+        outs = [o[0] for o in f["outs"]]
+        targets = [o for o in outs if o == "re" or o.endswith("_re") or (o == "ret" and f["name"] in ("is_zero", "is_one", "is_positive", "is_negative", "re", "cf_is_finite", "is_finite"))]
+        if not targets:
+            continue
+        params = [(p[0], p[1]) for p in f["params"]]
+        names = [p[0] for p in params]
+        # operands: a flat name  P_re  marks a struct operand P
+        ops = [n[:-3] for n in names if n.endswith("_re") and all((n[:-3] + "_" + l) in names for l in nonre)]
+        dep = set()
+        for o in ops:
+            for l in nonre:
+                dep.add(f"{o}_{l}")
+        if not dep:
+            continue
+        decl, a1, a2 = [], [], []
+        for n, t in params:
+            if n in dep:
+                decl += [f"u_{n}: {t}", f"w_{n}: {t}"]
+                a1.append(f"u_{n}")
+                a2.append(f"w_{n}")
+            else:
+                decl.append(f"{n}: {t}")
+                a1.append(n)
+                a2.append(n)
+        mn = f["mname"]
+        ens = [f"{mn}_{t}({', '.join(a1)}) == {mn}_{t}({', '.join(a2)})" for t in targets]
+        nm = mn[len("m_" + ty + "_"):]
+        out.append(Lemma(f"tr_{ty}_{nm}", ", ".join(decl), [], ens, ["C06"],
+                         f"{f['id']}: the real part / predicate does not change when the derivative parts of the operands change"))
+    return out
+
+
+def gen_cmp_lemmas(meta):
+    """C06: equality on the field-compatible types is decided by the real parts"""
+    G = Gen(meta)
+    out = []
+    if G.have("pe_eq"):
+        A, B = G.var("a"), G.var("b")
+        out.append(Lemma(f"lem_{G.ty}_pe_eq", reals(A + B), [], [f"{G.m('pe_eq', 'ret', [A, B])} == (a_re == b_re)"], ["C06"], "== compares the real parts only"))
+    return out
